@@ -22,7 +22,7 @@ LEVEL_NOTE = ("Trusted: Lean kernel + 3 standard axioms; the hand-written model 
               "attributes are compared before/after on every case.")
 TECHNIQUE = "Lean 4 proof: algebraic characterisation of a fold-structured writer model; differential correspondence model vs writer.py"
 RULE = ("corpus; entries holding equal fields (same key, value and line); one format object used for two writes with "
-        "different value_column settings; one Library object written, its entries edited (same number of blocks) and written again; exhaustive small libraries (<=3 blocks over 9 block shapes) x 6 formats; structured random libraries "
+        "different value_column settings; library objects with a history (views read, an entry removed); write_string against the writer on the library with every value enclosed; one Library object written, its entries edited (same number of blocks) and written again; exhaustive small libraries (<=3 blocks over 9 block shapes) x 6 formats; structured random libraries "
         "(0..7 blocks of every class incl. failed / duplicate-key / duplicate-field / middleware-error / non-block objects, "
         "0..6 fields, key lengths 0..45, int and list values) x formats (indent in '', ' ', tab, 4 spaces, 'xy'; value_column 0..40 "
         "or auto; separators '', NL, NL NL, ' NL', '%%NL', ', '; trailing comma; failed-comment templates with and without {n}, "
